@@ -99,10 +99,6 @@ def gen_cases(ctx):
         dep = rng.choice(["p", "o", "i"])
         sx, sy = rng.choice(signs), rng.choice(["pos", "neg"])
         cases.append(("public-intdtype", dep, op, pbx.int_box200(rng, sx), pbx.int_box200(rng, sy)))
-    # the same call repeated with divisors that are created and dropped (memoisation keyed by id(), address reuse)
-    xfix = pbx.int_box200(rng, "pos")
-    for _ in range(ctx.scale(30, 300)):
-        cases.append(("public-reuse", rng.choice(["p", "o"]), "div", xfix, pbx.int_box200(rng, rng.choice(["pos", "neg"]))))
     for _ in range(ctx.scale(20, 500)):
         op = rng.choice(["add", "sub", "mul", "div"])
         dep = rng.choice(["p", "o", "i"])
@@ -113,6 +109,41 @@ def gen_cases(ctx):
         l2, r2, k2 = pbx.lib_box200(rng, sy)
         cases.append(("public-lib", dep, op, (l1, r1), (l2, r2)))
     return cases
+
+
+def reuse_stream(ctx):
+    """A SEQUENCE: one long-lived dividend, divisors that are built, used once and dropped (so a later divisor is
+    allocated where an earlier one lived).  Every division must be the random-set result of ITS OWN operands —
+    catches memoisation keyed by id(obj) and other state carried from one call to the next."""
+    import gc, warnings
+    rng = ctx.rng
+    X = pbx.stair(*pbx.int_box200(rng, "pos"))
+    x = ([float(v) for v in X.left], [float(v) for v in X.right])
+    for it in range(ctx.scale(24, 200)):
+        dep = rng.choice(["p", "o"])
+        op = rng.choice(["div", "div", "mul"])
+        y = pbx.int_box200(rng, rng.choice(["pos", "neg"]))
+        ctx.count(("reuse", it, dep, op, y), True, "public-reuse")
+        try:
+            with warnings.catch_warnings():
+                warnings.simplefilter("ignore")
+                Y = pbx.stair(*y)
+                r = getattr(X, op)(Y, dependency=dep)
+            impl = pbx.canon_pb(r)
+            del Y, r
+        except BaseException as e:  # noqa
+            impl = ("err", core.err_kind(e))
+        gc.collect()
+        feat = {"op": op, "dep": dep, "sx": "pos", "sy": pbx.sign_class(*y)[:3], "public": True, "n": 200}
+        case = {"stream": "public-reuse", "iteration": it, "op": op, "dep": dep, "y": [y[0][0], y[0][-1], y[1][0], y[1][-1]], "impl": pbx.js(impl)}
+        if impl[0] == "err":
+            ctx.fail({**feat, "check": "raises", "symptom": "raises:" + impl[1]}, case, f"{op} under {dep} raised {impl[1]} in a sequence of calls")
+            return
+        w = check(dep, op, x, y, impl)
+        if w is not None:
+            ctx.fail({**feat, "check": "sequence-" + w["why"], "symptom": "random-set-mismatch"}, {**case, "witness": w},
+                     f"call {it} of a sequence: {op} under {dep} is not the random-set result of its own operands (step {w.get('step')})")
+            return
 
 
 def wire(c):
@@ -140,7 +171,7 @@ def run(ctx: core.Check):
         ctx.bump(f"dep:{rule[0]}")
         ctx.bump("signs:" + pbx.sign_class(*x)[:3] + "x" + pbx.sign_class(*y)[:3])
         public = stream.startswith("public")
-        exact = (not public) or (stream in ("public-int", "public-intdtype", "public-reuse") and op != "div")
+        exact = (not public) or (stream in ("public-int", "public-intdtype") and op != "div")
         impl = impl_public(op, rule, x, y, bare=False, int_dtype=(stream == "public-intdtype")) if public else impl_raw(rule, op, x, y)
         model = pbx.parse_reply(rep)
         if pbx.same(impl, model, exact):
@@ -170,4 +201,5 @@ def run(ctx: core.Check):
         if w is not None:
             ctx.fail({**feat, "check": w["why"], "symptom": "random-set-mismatch"}, {**case, "witness": w},
                      f"{op} under {rule}: result step {w.get('step')} ({w['why']}) is {w.get('reported')}, random-set value {w.get('random_set', w.get('block'))}")
+    reuse_stream(ctx)
     recheck_kept(ctx, "C03")
